@@ -55,6 +55,10 @@ HISTORIES = {
     'ehlo-auth': [EHLO, AUTH],
     'none': [],
     'ehlo-ehlo': [EHLO, EHLO],
+    # a refused EHLO must not make the session an ESMTP session (nor may a later RSET restore an EHLO state)
+    'helo-badehlo-rset': [HELO, V['ehlo_bad'][0] + CR, RSET],
+    'badehlo': [V['ehlo_bad'][0] + CR],
+    'helo-badehlo': [HELO, V['ehlo_bad'][0] + CR],
     'ehlo-rset': [EHLO, RSET],
     'ehlo-rset-noop': [EHLO, RSET, NOOP],
 }
